@@ -45,6 +45,47 @@ def g_contract(st):
     return f"(CContract ({gnat(st['k'])}, {glist(frs)}, ({gz(st['dy_out'][0])}, {int(st['dy_out'][1])}%positive)))"
 
 
+def py_contract(st):
+    """direct oracle: the same contraction with exact fractions in Python (used for every case, and the only
+    check for networks too large for vm_compute)"""
+    import itertools
+    COB = [[1, 1, 0, 0], [-1, -1, 2, 0], [-1, -1, 0, 2], [1, -1, 0, 0]]
+    tens, pos = [], 0
+    for f in st["frags"]:
+        p, m = f["np"], f["nm"]
+        cnt = 4 ** (p + m)
+        res = [Fr(a, b) for a, b in st["dy_in"][pos:pos + cnt]]; pos += cnt
+        gfi = {w: i for i, w in enumerate(f["gf"])}
+        T = {}
+        for ss in itertools.product(range(4), repeat=p):
+            sp = 0
+            for x in ss:
+                sp = 4 * sp + x
+            for ws in itertools.product("IXYZ", repeat=m):
+                T[(ss, ws)] = res[sp * 4 ** m + gfi["".join(ws)]]
+        T2 = {}
+        for qs in itertools.product(range(4), repeat=p):
+            for ws in itertools.product("IXYZ", repeat=m):
+                acc = Fr(0)
+                for ss in itertools.product(range(4), repeat=p):
+                    cf = 1
+                    for q, s_ in zip(qs, ss):
+                        cf *= COB[q][s_]
+                    if cf:
+                        acc += cf * T[(ss, ws)]
+                T2[(qs, ws)] = acc
+        tens.append((f, T2))
+    total = Fr(0)
+    for a in itertools.product(range(4), repeat=st["k"]):
+        t = Fr(1)
+        for f, T2 in tens:
+            t *= T2[(tuple(a[e] for e in f["pe"]), tuple("IXYZ"[a[e]] for e in f["me"]))]
+            if not t:
+                break
+        total += t
+    return total / 2 ** st["k"]
+
+
 def g_m2(m):
     return glist([glist([f"({gz(a)}, {gz(b)})" for a, b in row]) for row in m])
 
@@ -122,12 +163,21 @@ def _run(ctx, sess, payload):
 
     # ---- (a)+(b) tables and contraction model inside Coq
     terms, meta = [g_tables(out["tables"])], [("tables", None, None)]
-    for c in ok:
-        for ti, st in enumerate(c["t"]):
-            terms.append(g_contract(st)); meta.append(("manual", c, ti))
-    for a in okauto:
-        if "st" in a:
-            terms.append(g_contract(a["st"])); meta.append(("auto", a, 0))
+    quick = ctx.tier == "quick"
+    kmax = 4 if quick else 5
+    allst = [("manual", c, ti, st) for c in ok for ti, st in enumerate(c["t"])] + [("auto", a, 0, a["st"]) for a in okauto if "st" in a]
+    npy = 0
+    for kind, c, ti, st in allst:
+        if st["k"] <= kmax and max(f["np"] + f["nm"] for f in st["frags"]) <= 4:
+            terms.append(g_contract(st)); meta.append((kind, c, ti))
+        if st["k"] <= 6:
+            npy += 1
+            mine, impl = py_contract(st), Fr(st["dy_out"][0], st["dy_out"][1])
+            if abs(mine - impl) > Fr(1, 10 ** 9) * (1 + abs(mine)):
+                ctx.violation(key_of("oracle:contract:", [c["ops"], c["terms"], ti]),
+                              {"n": c["n"], "ops": c["ops"], "term": c["terms"][ti], "cuts": st["k"], "fragments": st["frags"],
+                               "fragment_results": st["dy_in"], "qcut_processing_fn": float(impl), "expected": float(mine), "placement": kind},
+                              what="qcut_processing_fn on rational fragment results differs from 2^-cuts * sum over edge indices of the change-of-basis-transformed fragment tensors")
     bad = ctx.coq_eval_cases("cases", HEADER, terms, "check_any", chunk=12, par=8)
     for i in bad:
         kind, c, ti = meta[i]
@@ -140,6 +190,7 @@ def _run(ctx, sess, payload):
                           {"n": c["n"], "ops": c["ops"], "term": c["terms"][ti], "cuts": st["k"], "fragments": st["frags"],
                            "fragment_results": st["dy_in"], "qcut_processing_fn": st["dy_out"], "placement": kind},
                           what="qcut_processing_fn on rational fragment results differs from the contraction model (CHANGE_OF_BASIS, 1/2 per cut, one summed index per communication-graph edge)")
+    ctx.coverage["_npy"] = npy
     tm["coq_cases"] = round(time.time() - t1, 1); t1 = time.time()
     # ---- (c) settings
     nset = 0
@@ -231,6 +282,7 @@ def _run(ctx, sess, payload):
                           {"n": m["n"], "ops": m["ops"], "sample_wires": m["swires"], "z_parity_wires": m["zwires"], "shots": m["shots"], "seed": m["seed"],
                            "cut_circuit_mc": r["value"], "exact_uncut": m["exact_value"], "six_sigma": 6 * sigma},
                           what="cut_circuit_mc estimate is more than 6 sigma from the exact uncut expectation (statistical check)")
+    npy = ctx.coverage.pop("_npy", 0)
     hist = {}
     for c in ok:
         for st in c["t"]:
@@ -245,7 +297,7 @@ def _run(ctx, sess, payload):
                                "effective_cuts_histogram(per Pauli term)": hist, "sum_observables": sum(len(c["terms"]) > 1 for c in ok),
                                "fragments_max": max([len(st["frags"]) for c in ok for st in c["t"]] or [0]),
                                "configuration_tapes_checked": nset, "exact_circuits_simulated": len(circs),
-                               "exact_postprocessing_cases": len(items), "mc_runs": nmc,
+                               "exact_postprocessing_cases": len(items), "mc_runs": nmc, "contraction_cases_in_coq": len(terms) - 1, "contraction_cases_python_oracle": npy,
                                "nontrivial_expectations": nontriv},
     })
     for c in ok[:2]:
